@@ -51,3 +51,26 @@ Definition zset_member_key_of_score_key (t k : bytes) (sk : bytes) : option byte
   | Ok (_, _, m, _) => Some (coll_key zset_type t k m)
   | _ => None
   end.
+
+(* ---------- whole-table delete: rockredis.go DeleteTableRange(dryrun=false, table, nil, nil) ---------- *)
+(* the engine ranges it deletes (the table key counter is deleted separately by DelTableKeyCount): for
+   kv/hash/list/set/zset the data ranges of getTableDataRange and the meta range of getTableMetaRange (a type
+   whose range cannot be built is skipped, as the Go loop `continue`s), and — since fix afc5d56 — the table
+   ranges of the bitmap and json keys and the bitmap meta range *)
+Definition ranges_or_nil (r : res (list (bytes * bytes))) : list (bytes * bytes) :=
+  match r with Ok l => l | _ => [] end.
+Definition range_or_nil (r : res (bytes * bytes)) : list (bytes * bytes) :=
+  match r with Ok p => [p] | _ => [] end.
+Definition delete_table_ranges (t : bytes) : list (bytes * bytes) :=
+  flat_map (fun p : N * N =>
+              match get_table_data_range (fst p) t [] None with
+              | Ok rgs => match get_table_meta_range (snd p) t [] None with
+                          | Ok m => rgs ++ [m]
+                          | _ => []
+                          end
+              | _ => []
+              end)
+           [(kv_type, kv_type); (hash_type, hsize_type); (list_type, lmeta_type); (set_type, ssize_type); (zset_type, zsize_type)]
+  ++ [(encode_data_table_start bitmap_type t, encode_data_table_end bitmap_type t);
+      (encode_data_table_start json_type t, encode_data_table_end json_type t)]
+  ++ range_or_nil (get_table_meta_range bitmap_meta_type t [] None).
